@@ -51,6 +51,7 @@ type Interp struct {
 	observed  []string
 	inInit    int
 	curG      *goroutine
+	syncState map[*value]int64 // concurrent mode: WaitGroup counters, Mutex held flags
 	sched     *scheduler
 	uncertain bool // a feasibility query answered unknown on this path
 	shapes    map[*ssa.BasicBlock]*mergeShape
@@ -63,6 +64,7 @@ type Interp struct {
 	// concrete mode (translator validation / replay inside the engine)
 	concrete      bool
 	seed          uint64
+	schedSeed     uint64
 	replayVals    map[string]uint64
 	mapReverse    bool
 	funcsSeen     map[string]bool
@@ -219,6 +221,19 @@ func (in *Interp) ensureInit(pkg *ssa.Package) {
 	}
 	if initDenied(path) {
 		poisonAll("package " + path + " is not initialised by the engine")
+		if path == "context" {
+			// the two sentinel errors are compared against by callers; give
+			// them distinct values (errors.New, executed by the engine)
+			if en := in.prog.ImportedPackage("errors"); en != nil {
+				for _, name := range []string{"Canceled", "DeadlineExceeded"} {
+					if g, ok := pkg.Members[name].(*ssa.Global); ok {
+						if f := en.Func("New"); f != nil {
+							*in.globals[g] = in.call(nil, token.NoPos, f, []value{"context: " + name})
+						}
+					}
+				}
+			}
+		}
 		return
 	}
 	// run tolerant
